@@ -54,6 +54,16 @@ def ceval(e, env, defs, depth=0):
         return ceval(defs[e[1]], env, defs, depth + 1)
     if k == "cond":
         return ceval(e[2] if ceval(e[1], env, defs, depth + 1) else e[3], env, defs, depth + 1)
+    if k == "un":
+        v = ceval(e[2], env, defs, depth + 1)
+        bits = e[3] if len(e) > 4 and e[3] else 32
+        if e[1] == "!":
+            return int(not v)
+        if e[1] == "~":
+            return ~v & ((1 << bits) - 1)
+        if e[1] == "-":
+            return -v & ((1 << bits) - 1)
+        raise _NotConst(e[1])
     if k == "bin":
         a = ceval(e[2], env, defs, depth + 1)
         if e[1] == "&&":
@@ -133,32 +143,48 @@ def pad_obligations(prog):
                               bad or "`%s` evaluated for all 64 residues of bytes mod 64: 1 <= L <= %d and (b + L) mod 64 = 56" % (show(L)[:80], cap), props=PROPS))
     # the size descriptor
     from limbs import Limbs, Undecided, Frame, padd, pscale, patom
-    be = _calls(f, "secp256k1_write_be32")
-    desc = [(el2, c2) for el2, c2 in be if kind(strip(c2[3][0])) == "addr" and f.vars.get((lvalue_root(c2[3][0]) or [None, None])[1], {}).get("array_n") == 8]
+    be = [(el2, c2, 4) for el2, c2 in _calls(f, "secp256k1_write_be32")] + [(el2, c2, 8) for el2, c2 in _calls(f, "secp256k1_write_be64")]
+
+    def _desc_off(a):
+        """Byte offset into the 8-byte descriptor array that pointer expression a denotes, or None."""
+        a = strip(a)
+        if kind(a) == "addr" and kind(strip(a[1])) == "index":
+            r_, o_ = lvalue_root(a), int_val(strip(a[1])[2])
+        elif kind(a) == "decay":
+            r_, o_ = lvalue_root(a), 0
+        else:
+            return None
+        if r_ is None or f.vars.get(r_[1], {}).get("array_n") != 8:
+            return None
+        return o_
+    desc = [(el2, c2, n_, _desc_off(c2[3][0])) for el2, c2, n_ in be if _desc_off(c2[3][0]) is not None]
     ok, det, loc = False, "", f.loc
-    if len(desc) != 2:
-        det = "%d stores of a 32-bit word into the 8-byte size descriptor (expected 2)" % len(desc)
+    cover = sorted((o_, o_ + n_) for _e, _c, n_, o_ in desc)
+    tiled = bool(cover) and cover[0][0] == 0 and cover[-1][1] == 8 and all(cover[i][1] == cover[i + 1][0] for i in range(len(cover) - 1))
+    if not tiled:
+        ok, det = True, "NOT DECIDED: the size descriptor is not assembled from big-endian word stores that tile its 8 bytes (%s)" % (cover,)
     else:
         try:
             Lm = Limbs(prog, lambda key: (1 << 61) - 1 if key.endswith(".bytes") else None)
             fr = Frame(f, "")
-            words = {}
-            for el2, c2 in desc:
-                off = int_val(strip(strip(c2[3][0])[1])[2])
+            R = {}
+            for el2, c2, n_, o_ in desc:
                 Lm.loc = el2.loc
-                words[off] = Lm.fit(Lm.ev(c2[3][1], fr), 32, "argument of secp256k1_write_be32")
+                w = Lm.fit(Lm.ev(c2[3][1], fr), 8 * n_, "argument of %s" % c2[1])
+                R = padd(R, pscale(w.p, 1 << (8 * (8 - n_ - o_))))
             loc = desc[0][0].loc
-            if set(words) != {0, 4}:
-                det = "descriptor words stored at offsets %s, not 0 and 4" % sorted(words)
+            if not Lm.inputs:
+                ok, det = False, "the size descriptor does not depend on the byte count"
             else:
                 b = next(iter(Lm.inputs.values()))
-                R = padd(padd(pscale(words[0].p, 1 << 32), words[4].p), pscale(patom(b), 8), -1)
+                R = padd(R, pscale(patom(b), 8), -1)
                 wrong, dropped, unk = Lm.residual_report(R)
                 if unk or Lm.undecided:
                     raise Undecided("; ".join(Lm.undecided[:2]))
                 ok = not wrong and not dropped
-                det = ("2^32 w0 + w1 = 8 bytes for every bytes < 2^61 (w0 = `%s`, w1 = `%s`)" % (show(desc[0][1][3][1])[:40], show(desc[1][1][3][1])[:40])) if ok else \
-                    "2^32 w0 + w1 is not the bit count 8 * bytes (w0 = `%s`, w1 = `%s`)" % (show(desc[0][1][3][1])[:40], show(desc[1][1][3][1])[:40])
+                words = ", ".join("`%s` at %d" % (show(c2[3][1])[:36], o_) for _e, c2, _n, o_ in desc)
+                det = ("the descriptor is the 64-bit big-endian value 8 * bytes for every bytes < 2^61 (%s)" % words) if ok else \
+                    "the descriptor is not the bit count 8 * bytes (%s)" % words
         except Undecided as ex:
             ok, det = True, "NOT DECIDED: %s" % ex
     obs.append(Obligation("R-HASH", "R-HASH:secp256k1_sha256_finalize:bit-count", loc, f.name,
